@@ -293,6 +293,19 @@ def check_compose_order(prog: Program, res: Result) -> None:
                         node.func.value, ast.Attribute) and \
                         node.func.value.attr in MERGED_SLOTS:
                     slot, kind = node.func.value.attr, node.func.attr
+                elif isinstance(node, ast.Assign) and len(
+                        node.targets) == 1 and isinstance(
+                        node.targets[0], ast.Attribute) and \
+                        node.targets[0].attr in MERGED_SLOTS \
+                        and "ChainMap(" in norm(node.value, 300) + " ".join(
+                            norm(a.value, 300) for a in ast.walk(fi.node)
+                            if isinstance(a, ast.Assign) and any(
+                                isinstance(t, ast.Name) and t.id in {
+                                    x.id for x in ast.walk(node.value)
+                                    if isinstance(x, ast.Name)}
+                                for t in a.targets)):
+                    # the table is rebound to a merge of the graphs' tables
+                    slot, kind = node.targets[0].attr, "rebind"
                 if slot is None:
                     continue
                 n += 1
@@ -317,7 +330,8 @@ def check_compose_order(prog: Program, res: Result) -> None:
                     flips.append(f"`{norm(guard[0].test, 60)}` keeps the "
                                  "entry that is already there")
                 argt = norm(node.args[0], 300) if (
-                    kind == "update" and node.args) else ""
+                    kind == "update" and node.args) else (
+                    norm(node.value, 300) if kind == "rebind" else "")
                 names = {x.id for x in ast.walk(node)
                          if isinstance(x, ast.Name)}
                 chain_src = argt
